@@ -54,3 +54,4 @@ fn c08__opmeta__new_keeps_fields() {
     assert!(m.precedence == p && m.fixity == Fixity::Right);
     kani::cover!(true); // vacuity guard: the end of the harness is reachable under its assumptions
 }
+
